@@ -333,6 +333,9 @@ def c05(v):
                 seen = e[3]
             if seen is not None and seen != d:
                 return f"attempt {a}: strategy returned {raw} with {rem} remaining -> delay {d}, but {e[0]} saw {seen}"
+        if a < v.n and not any(e[0] == "SL" for e in seg):
+            return (f"attempt {a + 1} started although the sleeper never received the delay ({d}) of the retry granted "
+                    f"after attempt {a}")
         if granted:
             prev = d
         if a == v.n:
